@@ -14,14 +14,14 @@ func walkCheck(id string, fam *e1.Family, tier common.Tier) int {
 	depth, maxDev, full := 2, -1, false
 	files := []int{0, 1, 2}
 	if tier == "thorough" {
-		depth, maxDev, full = 3, 4, true
+		depth, maxDev, full = 3, 3, true
 	}
 	run.SetRule(
 		"state = history of top-level declarations (encloser kind x file) appended to the annotated prelude, in package d or in importing package u, "+
 			"x annotation mix; each state is rendered to Go source and analysed by the real analyzers via checker.Analyze; every candidate line is compared "+
 			"with a stateless reference. A state is non-trivial when the reference expects at least one diagnostic or one annotation-based exemption in it; distinct = distinct (package, mix, history).",
-		fmt.Sprintf("all histories of depth<=%d over %d encloser kinds x %d files (deviation bound %d; -1 = none), %d annotation mixes, 2 packages; plus every (encloser, wrapper, site) alone at depth 1",
-			depth, len(e1.EnclNames), len(files), maxDev, len(e1.Mixes(full))))
+		fmt.Sprintf("all histories of depth<=2 over %d encloser kinds x %d files with %d annotation mixes, 2 packages; thorough adds depth %d under a deviation bound of %d with the 12 corner mixes; plus every (encloser, %d wrappers, site) alone at depth 1",
+			len(e1.EnclNames), len(files), len(e1.Mixes(full)), depth, maxDev, int(e1.NumWrappers())))
 	run.Assume("go/parser, go/types and x/tools checker.Analyze are trusted", "generated programs are in the supported fragment: non-generic defined types, direct imports, one candidate statement per line")
 	run.NotJudged("methods (as opposed to functions) named like a constructor", "closure parameter shadowing the receiver name inside a method of the annotated type",
 		"compound/incdec on an element of a field (x.f[i] += 1, x.f[i]++)", "*r += 1 on the receiver", "range-clause assignment", "writes through promoted fields of an embedded immutable struct",
@@ -60,24 +60,38 @@ func walkCheck(id string, fam *e1.Family, tier common.Tier) int {
 			}
 		}
 		// Phase B: histories with full bodies.
-		for _, inU := range []bool{false, true} {
-			alpha := e1.Alphabet(fam, inU, files)
-			for _, mix := range e1.Mixes(full) {
-				e1.Histories(alpha, depth, maxDev, func(_ int, h []e1.Block) {
-					idx++
-					if !sh.Mine(idx) {
-						return
-					}
-					spec := &e1.Spec{InU: inU, Mix: mix, Blocks: h, Sites: sites}
-					e1.CheckSpec(run, fam, spec)
-					if idx%9973 == 1 {
-						var hs []string
-						for _, b := range h {
-							hs = append(hs, b.String())
+		type plan struct {
+			depth, maxDev int
+			full          bool
+		}
+		plans := []plan{{2, -1, false}}
+		if tier == "thorough" {
+			// every mix at depth 2, and depth 3 under the deviation bound with the corner mixes
+			plans = []plan{{2, -1, true}, {3, 3, false}}
+		}
+		for pi, pl := range plans {
+			for _, inU := range []bool{false, true} {
+				alpha := e1.Alphabet(fam, inU, files)
+				for _, mix := range e1.Mixes(pl.full) {
+					e1.Histories(alpha, pl.depth, pl.maxDev, func(_ int, h []e1.Block) {
+						if pi > 0 && len(h) < 3 {
+							return // depth <= 2 is covered by the first plan
 						}
-						run.Sample(map[string]any{"phase": "history", "pkg_u": inU, "mix": mix.String(), "history": hs})
-					}
-				})
+						idx++
+						if !sh.Mine(idx) {
+							return
+						}
+						spec := &e1.Spec{InU: inU, Mix: mix, Blocks: h, Sites: sites}
+						e1.CheckSpec(run, fam, spec)
+						if idx%9973 == 1 {
+							var hs []string
+							for _, b := range h {
+								hs = append(hs, b.String())
+							}
+							run.Sample(map[string]any{"phase": "history", "pkg_u": inU, "mix": mix.String(), "history": hs})
+						}
+					})
+				}
 			}
 		}
 	})
